@@ -294,6 +294,21 @@ class BlockTr:
         if not stmts:
             return env
         s, rest = stmts[0], stmts[1:]
+        if self.item.get("lenient") and isinstance(s, (ast.For, ast.While)) and not self.skipped(s):
+            # a nested loop is not executed: everything it assigns becomes unknown (it must not contain a listed effect)
+            for n in ast.walk(s):
+                if isinstance(n, ast.Expr) and isinstance(n.value, ast.Call):
+                    fn = re.sub(r"\s+", "", ast.unparse(n.value.func))
+                    if any(fn == k or fn.endswith("." + k) for k in self.effects):
+                        raise Unsupported("listed effect inside a nested loop: " + fn)
+            for n in ast.walk(s):
+                if isinstance(n, (ast.Assign, ast.AugAssign, ast.AnnAssign)):
+                    for e in self.targets_of(n):
+                        if isinstance(e, (ast.Name, ast.Attribute, ast.Subscript)):
+                            nm = self.name_of(e)
+                            env.pop(nm, None)
+                            env[nm] = self.cur({}, self.fresh(nm))
+            return self.run(rest, env)
         if self.item.get("lenient") and isinstance(s, (ast.Assign, ast.AugAssign, ast.AnnAssign, ast.Expr)):
             # lenient mode (long training loops): a simple statement the translator cannot express (tensor code) makes
             # the variables it assigns unknown (fresh leaves `<name>_new`) and is otherwise ignored; control flow,
@@ -355,6 +370,23 @@ class BlockTr:
             et = self.run(list(s.body), dict(env))
             ef = self.run(list(s.orelse), dict(env))
             return self.run(rest, self.merge(c, et, ef))
+        if isinstance(s, ast.Assign) and isinstance(s.value, ast.Dict) and len(s.targets) == 1 and \
+                isinstance(s.targets[0], (ast.Name, ast.Attribute)) and \
+                all(isinstance(k, ast.Constant) and isinstance(k.value, str) for k in s.value.keys):
+            # `d = {"r": a, "l": b, …}`: one variable per constant key (`d["r"]` is read / written as d_r)
+            base = self.name_of(s.targets[0])
+            for k, v in zip(s.value.keys, s.value.values):
+                nm = sanitize(base + "_" + k.value)
+                saved = list(self.tr.leaves)
+                try:
+                    env[nm] = self.expr(env, v)
+                except Unsupported:
+                    if not self.item.get("lenient"):
+                        raise
+                    self.tr.leaves[:] = saved
+                    env.pop(nm, None)
+                    env[nm] = self.cur({}, self.fresh(nm))
+            return self.run(rest, env)
         if isinstance(s, ast.Assign):
             if any(k in text for k in self.havoc):
                 # result of an external call: the targets become fresh leaves (their value after the call)
@@ -472,7 +504,9 @@ def extract_block(item):
     lt = dict({b: "Bool" for b in bt.bool_leaves}, **item.get("leaf_types", {}))
     binders = " ".join(f"({quote(l)} : {lt.get(l, dty or 'α')})" for l in leaves)
     rty = " × ".join(o["type"] for o in item["outputs"])
-    generic = (dty is None) and (any(l not in lt for l in leaves) or any(o["type"] == "α" for o in item["outputs"]))
+    uses_alpha = lambda t: re.search(r"(?<![\w])α(?![\w])", t) is not None
+    generic = ((dty is None) and any(l not in lt for l in leaves)) or any(uses_alpha(o["type"]) for o in item["outputs"]) \
+        or any(uses_alpha(lt.get(l, dty or "α")) for l in leaves)
     head = f"def {item['name']} " + (item["type_params"] + " " if item.get("type_params") else "")
     if generic:
         head += ("" if item.get("alpha_from_section") else "{α : Type} ") + item.get("classes", "[Add α] [Sub α] [Mul α] [Div α] [Neg α] [OfNat α 0] [OfNat α 1] [OfNat α 2]") + " "
